@@ -52,7 +52,7 @@ CheckStepP(want, pre, e, post, acc, line) ==
   /\ (want["C09"]) => C09(pre, Eff(e), post, line)
   /\ (want["C13"]) => C13(pre, Eff(e), post, line)
   /\ (want["C08"]) => (C08(pre, e, post, line) /\ C08Sub(pre, e, post, line))
-  /\ (want["C12"]) => C12(pre, e, post, acc.c12, line)
+  /\ (want["C12"]) => (C12(pre, e, post, acc.c12, line) /\ C12Bracket(pre, e, post, line))
   /\ (want["C19"]) => C19(pre, e, post, line)
   /\ (want["C10"]) => C10(pre, e, post, line)
   /\ (want["C11"]) => C11(pre, e, post, line)
